@@ -555,6 +555,8 @@ cpc_sketch_alloc<A> cpc_sketch_alloc<A>::deserialize(std::istream& is, uint64_t 
       kxp = read<double>(is);
       hip_est_accum = read<double>(is);
     }
+    if (!has_window) compressed.table_num_entries = num_coupons;
+    cpc_compressor<A>::check_compressed_sizes(compressed, lg_k);
     if (has_window) {
       compressed.window_data.resize(compressed.window_data_words);
       read(is, compressed.window_data.data(), compressed.window_data_words * sizeof(uint32_t));
@@ -563,7 +565,6 @@ cpc_sketch_alloc<A> cpc_sketch_alloc<A>::deserialize(std::istream& is, uint64_t 
       compressed.table_data.resize(compressed.table_data_words);
       read(is, compressed.table_data.data(), compressed.table_data_words * sizeof(uint32_t));
     }
-    if (!has_window) compressed.table_num_entries = num_coupons;
   } else {
     kxp = std::ldexp(1.0, lg_k); // empty sketch: HIP registers are not in the image, same state as a new sketch
   }
@@ -649,6 +650,8 @@ cpc_sketch_alloc<A> cpc_sketch_alloc<A>::deserialize(const void* bytes, size_t s
       ptr += copy_from_mem(ptr, kxp);
       ptr += copy_from_mem(ptr, hip_est_accum);
     }
+    if (!has_window) compressed.table_num_entries = num_coupons;
+    cpc_compressor<A>::check_compressed_sizes(compressed, lg_k);
     if (has_window) {
       check_memory_size(ptr - base + (compressed.window_data_words * sizeof(uint32_t)), size);
       compressed.window_data.resize(compressed.window_data_words);
@@ -659,7 +662,6 @@ cpc_sketch_alloc<A> cpc_sketch_alloc<A>::deserialize(const void* bytes, size_t s
       compressed.table_data.resize(compressed.table_data_words);
       ptr += copy_from_mem(ptr, compressed.table_data.data(), compressed.table_data_words * sizeof(uint32_t));
     }
-    if (!has_window) compressed.table_num_entries = num_coupons;
   } else {
     kxp = std::ldexp(1.0, lg_k); // empty sketch: HIP registers are not in the image, same state as a new sketch
   }
